@@ -381,6 +381,8 @@ def pub_rules(exc_ret, stop=False):
         Sub(r"(=\s*dcv_wait_until\([^;]*\);)", r"\1 if (vx_exc) return %s;" % exc_ret, None),
         Call(r"(%s)->cond_\.(notify_one|notify_all)" % BLK, lambda a, e: "dcv_%s(&%s->cond_, %s, %s)" % (
             e["h2"], e["h1"], re.sub(r"^std::move\((\w+)\)$", r"ilock_move(&\1)", a[0]), a[1]), None),
+        # any other look at the internal cv's queue (not in the pinned tree): an obligation "internal lock held" (specs/C07/pub.h dcv_query)
+        Call(r"(%s)->cond_\.(?!wait\b|wait_until\b|notify_one\b|notify_all\b)(\w+)" % BLK, "dcv_query(&{h1}->cond_)", None),
         Sub(r"(?<![\w.>:])pred\(\)", "pred_call()", None),
         Call0(r"(?<![\w.>:])wait", "{ wait(self, {0}, &vx_throws); if (vx_exc) return %s; }" % exc_ret, stmt=True),
         Call0(r"(?<![\w.>:_])wait_until", "wait_until(self, {0}, {1}, {2})"),
